@@ -661,10 +661,11 @@ class Interp:
                 if a[0] == 'partial':
                     self.binding_atoms.add(a)
                 elif a[0] == 'kdict':
-                    for _, vv in a[1]:
-                        for b in vv:
-                            if b[0] == 'partial':
-                                self.binding_atoms.add(b)
+                    vals = [b for _, vv in a[1] for b in vv]
+                    table = len(a[1]) >= 16 and all(b[0] in ('partial', 'fn', 'clo', 'lam') for b in vals)
+                    for b in vals:
+                        if b[0] == 'partial' or table:
+                            self.binding_atoms.add(b)
 
     # -- static structure ---------------------------------------------------------------------------------------------------
     def _index(self, node, prefix, cls):
@@ -1765,6 +1766,8 @@ class Interp:
             return av(('lib', cls + '.' + attr))
         if k == 'mod':
             return self.module_attr(a[1], attr)
+        if k == 'lib':
+            return av(('lib', a[1] + '.' + attr))
         if k == 'super':
             _, cls, selfv = a
             out = BOT
@@ -1889,7 +1892,7 @@ class Interp:
             elif k == 'bytes' or (k == 'c' and a[1] == 'bytes'):
                 out = join(out, av(INT_S))
             elif k == 'file':
-                out = join(out, av(STR_U))
+                out = join(out, av(('str', 'u', ('elem', ('lines', ('read', a[1]))))))
             elif a == TOP or a == EXT:
                 out = join(out, av(a))
             elif k == 'obj' and a[1] in self.classes:
@@ -3217,8 +3220,6 @@ class Interp:
                 for i, sname in args.syms.items():
                     merged.syms[i + len(a[2]) if isinstance(i, int) else i] = sname
                 r = self.call_value(fr, av(a[1]), merged, node)
-                if a in self.binding_atoms and INT_U in r:
-                    r = frozenset(INT_S if x == INT_U else x for x in r)
             elif k == 'builtin':
                 r = self.call_builtin(fr, a[1], args, node)
             elif k == 'lib':
@@ -3239,6 +3240,8 @@ class Interp:
                 continue
             else:
                 continue
+            if a in self.binding_atoms and INT_U in r:
+                r = frozenset(INT_S if x == INT_U else x for x in r)
             ncallees += 1
             g = fr.store.facts - facts_in
             gained = g if gained is None else (gained & g)
@@ -3838,7 +3841,9 @@ class Interp:
                     elems = y
                 if not elems:
                     return av(('list', BOT))
-                r = self.call_value(fr, pos[0], Args([elems]), node)
+                if name == 'filter' and pos[0] == av(NONE):
+                    return av(('list', erase_tags(frozenset(a for a in elems if a != NONE))))
+                r = self.call_value(fr, frozenset(a for a in pos[0] if a != NONE), Args([elems]), node)
                 return av(('list', erase_tags(r if name == 'map' else elems)))
             return av(TOP)
         if name in ('iter', 'next'):
@@ -3898,6 +3903,8 @@ class Interp:
             if attr == 'format':
                 return self.format_result(fr, a, args, node), None
             if attr in ('split', 'rsplit'):
+                if x is not None and len(x) == 1 and next(iter(x)) in (const('\n'),) and len(pos) == 1:
+                    return av(('lines', extra)), None
                 sz = keep[1] if keep else frozenset()
                 return av(('toks', None, None, sz)), None
             if attr == 'splitlines':
@@ -3992,7 +3999,7 @@ class Interp:
             if attr == 'read':
                 return av(('str', 'u', ('read', a[1]))), None
             if attr == 'readlines':
-                return av(('list', av(STR_U))), None
+                return av(('lines', ('read', a[1]))), None
             if attr == 'readline':
                 return av(STR_U), None
             if attr in ('write', 'writelines', 'close', 'flush', 'seek'):
@@ -4180,6 +4187,40 @@ class Interp:
                     raise self.err(node, 'partial() of an unknown callable')
                 out.add(('partial', f, tuple(pos[1:]), tuple(sorted(args.kw.items()))))
             return frozenset(out)
+        if name == 'functools.reduce' and len(pos) >= 2:
+            mode, elems = self.iteration(fr, pos[1], node)
+            acc = pos[2] if len(pos) > 2 else None
+            if mode == 'exact':
+                for e in elems:
+                    acc = e if acc is None else self.call_value(fr, pos[0], Args([acc, e]), node)
+                    if not acc:
+                        return BOT
+                return acc if acc is not None else BOT
+            if not elems:
+                return acc if acc is not None else BOT
+            acc = join(acc or BOT, elems if acc is None else BOT)
+            for _ in range(8):
+                new = join(acc, self.call_value(fr, pos[0], Args([acc, elems]), node))
+                if new == acc:
+                    return acc
+                acc = new
+            raise self.err(node, 'reduce() did not stabilise')
+        if name in ('itertools.chain', 'itertools.chain.from_iterable'):
+            srcs = pos
+            if name.endswith('from_iterable') and pos:
+                mode, outer = self.iteration(fr, pos[0], node)
+                srcs = outer if mode == 'exact' else [outer]
+            elem = BOT
+            for p in srcs:
+                if not p:
+                    continue
+                mode, es = self.iteration(fr, p, node)
+                if mode == 'exact':
+                    for e in es:
+                        elem = join(elem, erase_tags(e))
+                else:
+                    elem = join(elem, erase_tags(es))
+            return av(('list', elem))
         if name in ('collections.ChainMap',):
             vals, keys, kv = BOT, frozenset(), BOT
             for p in pos:
